@@ -11,12 +11,12 @@ TRUST = ("rustc nightly's HIR/typeck/MIR is the program's meaning; third-party c
 
 # id -> (built?, category, technique, text, note, design_ref)
 P = {
-    "C01": (False, "other", "conjunction of the local safety obligations of 2-chain HotStuff (rules of C03,C04,C05,C09,C17,C19) re-evaluated on the type-checked program",
+    "C01": (True, "other", "conjunction of the local safety obligations of 2-chain HotStuff (rules of C03,C04,C05,C09,C17,C19) re-evaluated on the type-checked program",
             "Decides the local obligations the 2-chain safety proof consumes (vote guard, one vote per round, verify-before-effect, "
             "commit rule, quorum arithmetic, leader check, aggregator distinctness); each is a necessary condition of agreement. "
             "Does NOT decide that they suffice (the inductive protocol proof).",
             TRUST + "the protocol-level safety argument itself is not checked.", "DESIGN.md §3 C01"),
-    "C02": (False, "other", "path-condition + provenance rules and symbolic deque evaluation on Core::commit (HIR), who-may-write/who-may-send tables",
+    "C02": (True, "other", "path-condition + provenance rules and symbolic deque evaluation on Core::commit (HIR), who-may-write/who-may-send tables",
             "Decides: every block enqueued for delivery is guarded by its own round > last_committed_round; the drained order is "
             "oldest..newest,head (symbolic sequence evaluation of the queue operations); watermark written only here, monotonically; "
             "single tx_commit outlet; parent lookup returns genesis only for the genesis QC. Not the cross-call contiguity (rests on C01).",
@@ -41,7 +41,7 @@ P = {
             "missing parent => request+park+resume (never dropped); retry broadcast with re-armed timer; store-after-ancestors; dispatch "
             "routing. Convergence (liveness) is NOT decided.",
             TRUST + "timing/connectivity.", "DESIGN.md §3 C07"),
-    "C08": (False, "other", "path-condition + loop-completeness + provenance rules on MempoolDriver/PayloadWaiter/Processor; wiring graph",
+    "C08": (True, "other", "path-condition + loop-completeness + provenance rules on MempoolDriver/PayloadWaiter/Processor; wiring graph",
             "Decides: process_block of a foreign block only under mempool_driver.verify()==true; verify reads every payload digest and returns "
             "true only when none is missing; missing => parked with exactly the missing set; waiter resumes only after all notify_reads; "
             "store.write awaited before the digest is announced.",
@@ -56,7 +56,7 @@ P = {
             "or assembled certificate; high_qc is a running maximum folded on every processed QC before voting/proposing; Timeout::new "
             "carries self.high_qc and self.round.",
             TRUST, "DESIGN.md §3 C10"),
-    "C11": (False, "other", "linear-resource + provenance rules on BatchMaker/Processor in both feature configurations; panic-site discharge of the batching path",
+    "C11": (True, "other", "linear-resource + provenance rules on BatchMaker/Processor in both feature configurations; panic-site discharge of the batching path",
             "Decides: each received transaction is pushed at the tail and counted; seal under size>=batch_size right after the push; seal "
             "drains the full batch once and resets the size; stored/announced key = hash of the exact bytes stored; own and peer paths forward "
             "the serialized bytes unchanged; no input-dependent panic in the batching path (both configs). Not seal timing.",
@@ -65,7 +65,7 @@ P = {
             "Decides: tx_batch.send only under total_stake >= quorum_threshold; total_stake starts at own stake and grows only by the stake of the "
             "peer whose ACK handle completed; names/handles pairing preserved; the QuorumWaiter is the only sender into the own-batch Processor.",
             TRUST + "oneshot/FuturesUnordered semantics.", "DESIGN.md §3 C12"),
-    "C13": (False, "other", "wiring-graph path check (channels, network variants, store key classes) for digest flow and fetch-and-resume",
+    "C13": (True, "other", "wiring-graph path check (channels, network variants, store key classes) for digest flow and fetch-and-resume",
             "Decides only the second sentence as a path in the wiring graph: every hop of digest flow and of "
             "missing-batch fetch/resume exists with matching variant, address class and key class; retry exists; one shared Store. Eventual commit is NOT decided.",
             TRUST, "DESIGN.md §3 C13"),
@@ -78,7 +78,7 @@ P = {
             "Decides: every panic-capable MIR terminator reachable from Node::new, the dispatch impls and the wire decoders is discharged "
             "(CONST/GUARD/SER/EXH/PEER/SELECT/AUTH/ENV); decode errors are values; dispatch errors are local to a connection; services are immortal.",
             TRUST + "panics inside third-party crates and allocation failure are out of scope.", "DESIGN.md §3 C15"),
-    "C16": (False, "other", "confinement (who-may-access) + await-free region + must-precede + linear reply handles on the store task",
+    "C16": (True, "other", "confinement (who-may-access) + await-free region + must-precede + linear reply handles on the store task",
             "Decides: DB handle and obligations confined to one task; command loop awaits only rx.recv(); put precedes wake; wake drains all "
             "waiters of the same key with the written value; notify-read parks under the same key on a miss, with no await between miss and park.",
             TRUST + "RocksDB durability and get-after-put.", "DESIGN.md §3 C16"),
@@ -86,7 +86,7 @@ P = {
             "Proves (for the arithmetic clause): both committees compute floor(2S/3)+1 with S the u32 sum over all authorities, no overflow for "
             "S<2^31, stake(unknown)=0, every user compares with >=. The paper lemma q=n-f is in the trusted base.",
             "rustc's HIR for the two functions; interval rules for + - * / on u32; lemma O7.", "DESIGN.md §3 C17"),
-    "C18": (False, "other", "codec pairing / layout rules on crypto wrapper (static widths from types) + totality via the C15 panic engine",
+    "C18": (True, "other", "codec pairing / layout rules on crypto wrapper (static widths from types) + totality via the C15 panic engine",
             "Decides the wrapper's structure: encode/decode use the same width N; decoders are total; signature split/flatten offsets; "
             "verify/verify_batch argument provenance; key files (de)serialize the same types. ed25519 semantics are NOT decided.",
             TRUST, "DESIGN.md §3 C18"),
